@@ -75,7 +75,7 @@ func TestVerifMute(t *testing.T) {
 				return string(b[:n])
 			}
 			ich := make(chan string, 16)
-			och := make(chan CLine)
+			och := make(chan CLine, 1024) /* as deep as the program's */
 			s, cleanup, err := New(ich, och, "> ", true, nil, "")
 			if nil != err {
 				fail = err.Error()
@@ -104,12 +104,20 @@ func TestVerifMute(t *testing.T) {
 					och <- CLine{Color: ColorGreen, Line: fmt.Sprintf("<S%d>", k)}
 				case "l":
 					go s.Logf(ColorRed, false, "<S%d>", k)
+				case "b":
+					/* A backlog: while the terminal is busy (write lock held) a status line, a shell chunk and another
+					status line pile up in the operator channel; then the terminal catches up. */
+					s.wL.Lock()
+					och <- CLine{Color: ColorGreen, Line: fmt.Sprintf("<Q%d>", k)}
+					och <- CLine{Plain: true, Line: fmt.Sprintf("<P%d>", k)}
+					och <- CLine{Color: ColorGreen, Line: fmt.Sprintf("<S%d>", k)}
+					s.wL.Unlock()
 				}
 				synctest.Wait()
 				after := newOut()
 				cls := func(x string) []string {
 					var r []string
-					for _, m := range []string{"Unmuting", "Already muted", "Muting until", fmt.Sprintf("<P%d>", k), fmt.Sprintf("<S%d>", k)} {
+					for _, m := range []string{"Unmuting", "Already muted", "Muting until", fmt.Sprintf("<Q%d>", k), fmt.Sprintf("<P%d>", k), fmt.Sprintf("<S%d>", k)} {
 						for n := strings.Count(x, m); n > 0; n-- {
 							r = append(r, m)
 						}
